@@ -13,6 +13,8 @@ use crate::sched::Sched;
 pub struct Shared {
     pub probes: Mutex<BTreeMap<&'static str, u64>>,
     pub faults_fired: Mutex<BTreeMap<&'static str, u64>>,
+    /// (probe id, argument) pairs of the keyed "loss.*" probes.
+    pub keyed: Mutex<std::collections::BTreeSet<(&'static str, u64)>>,
 }
 
 impl Shared {
@@ -153,5 +155,22 @@ impl Hooks for SimHooks {
             }
         }
         *self.shared.probes.lock().unwrap().entry(id).or_insert(0) += 1;
+        if id.starts_with("loss.") {
+            self.shared.keyed.lock().unwrap().insert((id, _arg));
+        }
     }
+}
+
+/// Resolves the hash arguments of the keyed probes back to the keys a run used.
+pub fn resolve_keyed(shared: &Shared, mode: crate::types::HashMode, keys: &[u16]) -> BTreeMap<String, Vec<u16>> {
+    let mut out: BTreeMap<String, Vec<u16>> = BTreeMap::new();
+    let keyed = shared.keyed.lock().unwrap();
+    for (id, h) in keyed.iter() {
+        for k in keys {
+            if crate::types::hash_of(mode, *k) == *h {
+                out.entry(id.to_string()).or_default().push(*k);
+            }
+        }
+    }
+    out
 }
